@@ -78,6 +78,7 @@ def run(prop, tier, seed, work, ev):
     drv = build_driver()
     tlc_ok("mc/MC_Slice.tla", t["mc"], work, ev=ev, label="Slice L1|=L0 " + tier)
     tlc_must_fail("mc/MC_Slice.tla", "MC_Slice_neg.cfg", work, invariant="Inv_NoFail", ev=ev)
+    tlc_must_fail("mc/MC_Slice.tla", "MC_Slice_neg_step0.cfg", work, invariant="Inv_Bounded", ev=ev)
     apalache(work, ev)
     ev.exhaustive = True
     ev.rule = ("cases: every (len,start,stop,step) of the enumerated boundary domain through `@[a:b:c]` and "
